@@ -664,6 +664,9 @@ func init() {
 				add("k2-batch-btree", merge(base, p("k", 2, "ops", opPut|opBatch, "bmax", 2, "vlens", 1, "index", 1)))
 				add("k2-mmap", merge(base, p("k", 2, "ops", opPut|opDelete, "io", 1)))
 			add("second-merge-generation", merge(base, p("premerge", 2, "k", 2, "ops", opPut|opDelete, "vlens", 1)))
+			// DataFileSize smaller than some (or all) records: oversized records sit alone in their files, the merge
+			// output has several files and the hint indexes records larger than the limit
+			add("records-larger-than-dfs-k3", merge(base, p("k", 3, "ops", opPut|opDelete, "vlens", 3, "vbig", 25, "dfs_lo", 15, "dfs_hi", 45)))
 			add("cfgsweep-k2", merge(base, p("cfgsweep", 2, "k", 2, "ops", opPut|opDelete, "vlens", 1, "dfs_lo", 40, "dfs_hi", 40)))
 			} else {
 				add("k4", merge(base, p("k", 4, "ops", opPut|opDelete)))
